@@ -5,7 +5,7 @@ import numpy as np
 from ..core import CheckSpec, Outcome, Lean
 
 PIPE_OPS = ["modify", "connect", "replace", "add", "alias", "clear", "build", "clone", "train_clone", "run"]
-DATA_OPS = ["builder_from", "add_entities", "add_interactions", "add_attr", "add_class", "filter", "build", "reuse_builder", "split"]
+DATA_OPS = ["builder_from", "add_entities", "add_interactions", "add_attr", "add_class", "filter", "build", "reuse_builder", "split", "read"]
 
 def gen(rng: random.Random, tier: str):
     n = {"quick": 60, "thorough": 2500}[tier]
@@ -13,7 +13,10 @@ def gen(rng: random.Random, tier: str):
         world = "pipeline" if k % 2 == 0 else "dataset"
         ops = [rng.choice(PIPE_OPS if world == "pipeline" else DATA_OPS) for _ in range(rng.randint(2, 8))]
         ops[0] = "modify" if world == "pipeline" else "builder_from"
-        yield {"world": world, "ops": ops, "seed": rng.randrange(10**6), "scorer": rng.choice(["bias", "pop", "iknn"]), "predicts": rng.random() < 0.4}
+        if world == "pipeline" and "run" not in ops: ops.insert(rng.randint(1, len(ops)), "run")          # every pipeline history hands a candidate list to the components
+        if world == "dataset" and "read" not in ops and rng.random() < 0.5: ops.insert(rng.randint(1, len(ops)), "read")
+        yield {"world": world, "ops": ops, "seed": rng.randrange(10**6), "scorer": rng.choice(["bias", "pop", "iknn"]), "predicts": rng.random() < 0.4,
+               "plain_builder": rng.random() < 0.4, "cand": ["vocab", "ids", "ids+unknown", "numbers"][(k // 2) % 4]}
 
 def _reach(obj, seen, depth=0):
     import pyarrow as pa, pandas as pd
@@ -64,17 +67,22 @@ def _pipe_fp(p, ds):
                        "run": [int(i) for i in out.ids()]}, sort_keys=True, default=str)
 
 def _ds_fp(d):
+    schema0 = d.schema.model_dump(mode="json")          # recorded before any view is taken: reading a dataset must not write to it
     ents = {c: [str(x) for x in d.entities(c).ids()] for c in d.schema.entities}
     attrs = {c: {a: d.entities(c).attribute(a).arrow().to_pylist() for a in d.schema.entities[c].attributes} for c in d.schema.entities}
     tbl = d.interactions().pandas(ids=True) if d.schema.relationships else None
-    return json.dumps({"schema": d.schema.model_dump(mode="json"), "entities": ents, "attrs": attrs,
+    return json.dumps({"schema": schema0, "schema_after_views": d.schema.model_dump(mode="json"), "entities": ents, "attrs": attrs,
                        "rows": None if tbl is None else sorted(map(tuple, tbl.astype(str).values.tolist()))}, sort_keys=True, default=str)
 
-def _dataset(rnd, base=0):
+def _dataset(rnd, base=0, plain=False):
     import pandas as pd
-    from lenskit.data import from_interactions_df
+    from lenskit.data import from_interactions_df, DatasetBuilder
     rows = [[100 + u, 1000 + i, float(rnd.randint(1, 5)), rnd.randint(0, 100)] for u in range(5) for i in range(6) if rnd.random() < 0.6]
-    return from_interactions_df(pd.DataFrame(rows, columns=["user_id", "item_id", "rating", "timestamp"]))
+    df = pd.DataFrame(rows, columns=["user_id", "item_id", "rating", "timestamp"])
+    if not plain: return from_interactions_df(df)
+    b = DatasetBuilder()          # a builder that designates no default interaction class (the single class is the inferred default)
+    b.add_interactions("rating", df, entities=["user", "item"], missing="insert")
+    return b.build()
 
 def run(case: dict, lean: Lean) -> Outcome:
     import pandas as pd
@@ -84,7 +92,8 @@ def run(case: dict, lean: Lean) -> Outcome:
     from lenskit.knn import ItemKNNScorer
     from lenskit.splitting import crossfold_users, SampleN
     rnd = random.Random(case["seed"]); failed = []; classes = {case["world"]}; keys = set()
-    ds = _dataset(rnd)
+    ds = _dataset(rnd, plain=bool(case.get("plain_builder")) and case["world"] == "dataset")
+    if case.get("plain_builder") and case["world"] == "dataset": classes.add("no designated default interaction class")
     def check(objs, when):
         for name, (o, fp0, fpf) in list(objs.items()):
             try: now = fpf(o)
@@ -129,10 +138,24 @@ def run(case: dict, lean: Lean) -> Outcome:
                 elif op == "clone": c = cur.clone(); c.train(ds)
                 elif op == "train_clone": c = cur.clone(); c.train(_dataset(rnd))
                 elif op == "run":
-                    il = ItemList(item_ids=list(ds.items.ids()), tagf=np.arange(len(ds.items)))
-                    before = (il.ids().tolist(), il.field("tagf").tolist(), None if il.scores() is None else il.scores().tolist())
-                    cur.run("recommender", query=int(ds.users.ids()[1]), items=il, n=2)
-                    if (il.ids().tolist(), il.field("tagf").tolist(), None if il.scores() is None else il.scores().tolist()) != before: failed.append("a component changed the item list it was given"); keys.add("?itemlist")
+                    form = case.get("cand", "vocab"); classes.add("candidates:" + form)
+                    cids = [int(x) for x in ds.items.ids()] + ([424242] if form == "ids+unknown" else [])
+                    il = (ItemList(item_ids=np.array(cids), vocabulary=ds.items, tagf=np.arange(len(cids))) if form == "vocab"
+                          else ItemList(item_nums=np.arange(len(cids)), vocabulary=ds.items, tagf=np.arange(len(cids))) if form == "numbers"
+                          else ItemList(item_ids=cids, tagf=np.arange(len(cids))))          # identifiers only: no vocabulary, no numbers
+                    hist = ItemList(item_ids=cids[:2], rating=[4.0, 2.0])
+                    def state(l):
+                        import pickle
+                        try: nums = l.numbers().tolist()
+                        except Exception as e: nums = "refused: " + type(e).__name__
+                        st = l.__getstate__() if hasattr(l, "__getstate__") else {}
+                        return (l.ids().tolist(), [(f, np.asarray(l.field(f)).tolist()) for f in ("tagf", "rating") if l.field(f) is not None], None if l.scores() is None else l.scores().tolist(),
+                                l.vocabulary is None, nums, sorted(l.to_df().columns), sorted(k for k, v in (st.items() if isinstance(st, dict) else []) if v is not None), l.ordered)
+                    before = (state(il), state(hist))
+                    from lenskit.data import RecQuery
+                    cur.run("recommender", query=RecQuery(user_id=int(ds.users.ids()[1]), user_items=hist), items=il, n=2)
+                    after = (state(il), state(hist))
+                    if after != before: failed.append(f"a component changed an item list it was given: {str(before)[:160]} -> {str(after)[:160]}"); keys.add("?itemlist")
             except Exception as e:
                 classes.add("op raised"); continue
             check(built, op)
@@ -185,6 +208,8 @@ def run(case: dict, lean: Lean) -> Outcome:
                     cn = f"late{rnd.randint(0, 9999)}"; builders[-1].add_entity_class(cn)
                     mops += [{"op": "connect", "b": bidx[-1], "comp": "entities", "k": cn, "v": "class"}, {"op": "clear", "b": bidx[-1], "comp": "attrs:" + cn}]
                 elif op == "split": list(crossfold_users(cur, 2, SampleN(1), rng=rnd.randint(0, 999)))
+                elif op == "read":          # plain reads of a built dataset
+                    cur.interaction_count; cur.user_row(user_num=0); cur.item_stats(); cur.interactions().matrix().scipy()
             except Exception as e:
                 classes.add("op raised"); continue
             check(built, op)
@@ -205,5 +230,5 @@ def shrink(case: dict):
 
 SPEC = CheckSpec(
     pid="C14", theorems=["LK.Heap.C14_Heap_step_deep", "LK.Heap.C14_Heap_immutable"], correspondence_ops=["c14.run"],
-    nontrivial_rule="distinct operation histories reaching ≥1 of: each derive / modify / build / clone / split / train / run operation on pipelines and datasets",
+    nontrivial_rule="distinct operation histories reaching ≥1 of: each derive / modify / build / clone / split / read / train / run operation on pipelines and datasets, candidate lists with a vocabulary / numbers only / identifiers only (with an unknown one), datasets without a designated default interaction class",
     budgets={"quick": 60, "thorough": 2500}, gen=gen, run=run, shrink=shrink)
